@@ -172,37 +172,54 @@ func c08Facts(c *ctx) (string, error) {
 	}
 
 	// --- contextCanceled guard -------------------------------------------------------------
-	assigned, guarded := false, false
+	// the local that remembers errors.Is(err, context.Canceled) may have any name
+	canceledVar := ""
 	ast.Inspect(loop.Body, func(x ast.Node) bool {
 		switch n := x.(type) {
 		case *ast.FuncLit:
 			return false
 		case *ast.AssignStmt:
 			if len(n.Lhs) == 1 && len(n.Rhs) == 1 {
-				if id, ok := n.Lhs[0].(*ast.Ident); ok && id.Name == "contextCanceled" {
+				if id, ok := n.Lhs[0].(*ast.Ident); ok {
 					if ce, ok := c08IsPkgCall(n.Rhs[0], "errors", "Is"); ok && len(ce.Args) == 2 {
 						if se, ok := ce.Args[1].(*ast.SelectorExpr); ok && se.Sel.Name == "Canceled" {
 							if p, ok := se.X.(*ast.Ident); ok && p.Name == "context" {
-								assigned = true
+								canceledVar = id.Name
 							}
 						}
 					}
 				}
 			}
+		}
+		return true
+	})
+	assigned, guarded := canceledVar != "", false
+	ast.Inspect(loop.Body, func(x ast.Node) bool {
+		switch n := x.(type) {
+		case *ast.FuncLit:
+			return false
 		case *ast.IfStmt:
-			// leftmost operand of a || chain
-			e := n.Cond
-			for {
-				be, ok := e.(*ast.BinaryExpr)
-				if !ok || be.Op.String() != "||" {
-					break
+			// an operand of a || chain, body = bare return
+			var operands []ast.Expr
+			var walk func(e ast.Expr)
+			walk = func(e ast.Expr) {
+				if be, ok := e.(*ast.BinaryExpr); ok && be.Op.String() == "||" {
+					walk(be.X)
+					walk(be.Y)
+					return
 				}
-				e = be.X
+				if pe, ok := e.(*ast.ParenExpr); ok {
+					walk(pe.X)
+					return
+				}
+				operands = append(operands, e)
 			}
-			if id, ok := e.(*ast.Ident); ok && id.Name == "contextCanceled" && n.Else == nil &&
-				len(n.Body.List) == 1 {
-				if _, ok := n.Body.List[0].(*ast.ReturnStmt); ok {
-					guarded = true
+			walk(n.Cond)
+			for _, e := range operands {
+				if id, ok := e.(*ast.Ident); ok && assigned && id.Name == canceledVar && n.Else == nil && len(n.Body.List) == 1 {
+					if _, ok := n.Body.List[0].(*ast.ReturnStmt); ok {
+						guarded = true
+					}
 				}
 			}
 		}
